@@ -246,14 +246,14 @@ EXPORTS = ["numpy", "pandas", "pickle", "flows-csv", "stocks-csv", "stocks-csv-i
 STOCK_CFGS = [[], [[1, "tp", "in use"]], [[1, "tp", "in use"], [None, "t", "Lager: alt/neu"]], [[0, "t", "outside"], [1, "tpq", "in use (2)"]]]
 
 
-def specs(tier):
+def specs(tier, seed=0):
     for nproc in (2, 3):
         pairs = [(s, d) for s in range(nproc) for d in range(nproc)]
         types = [(s, d, a, prov) for s, d in pairs for a in ARRS for prov in (("C",) if len(a) < 2 else ("C", "F"))]
         lists = [[]] + [[t] for t in types]
         two = list(itertools.combinations(types, 2))
         if tier == "quick":
-            two = [x for i, x in enumerate(two) if i % 23 == 0]
+            two = [x for i, x in enumerate(two) if i % 23 == seed % 23]
         lists += [list(x) for x in two]
         for fl in lists:
             for sc in STOCK_CFGS:
@@ -317,10 +317,10 @@ def bounds(tier):
 
 
 def units(tier, seed):
-    sp = list(specs(tier))
+    sp = list(specs(tier, seed))
     out = []
     for i in range(0, len(sp), 12):
-        out.append(dict(kind="systems", lo=i, hi=i + 12, tier=tier))
+        out.append(dict(kind="systems", lo=i, hi=i + 12, tier=tier, seed=seed))
     out.append(dict(kind="to_dfs"))
     return out
 
@@ -341,7 +341,7 @@ def run_unit(u):
         for k in range(24):
             rec(*run_todfs_case(k))
         return res
-    sp = list(specs(u["tier"]))[u["lo"] : u["hi"]]
+    sp = list(specs(u["tier"], u.get("seed", 0)))[u["lo"] : u["hi"]]
     for spec in sp:
         for ex in EXPORTS:
             rec(*run_case(spec, ex), nt=bool(spec["flows"] or spec["stocks"]))
